@@ -299,6 +299,38 @@ src/uint/div.rs (the sub-limb shifts of `div_rem_vartime` over the low `limbs_nu
     - `let mut i = <Nat expression>; while i > 0 { ..; i -= 1; }` with the decrement as the LAST statement of the body becomes
       `<fn>_loop<j> captured.. : Nat → state.. → state` by structural recursion on the counter: round `n + 1` runs the body with
       `i = n + 1` and recurses with `n` (the fifth form of the seventh group, decrement FIRST, runs it with `i = n`).
+Twelfth unit group (round 4, G18; written to lean/CB/Gen/SafeGcdLimbs.lean, imports CB.Gen.SafeGcd): the LIMB arithmetic of
+safegcd (C10) — `impl<const LIMBS: usize> UnsatInt<LIMBS> { add, mul, neg, shr, eq, is_negative, lowest, select, leading_zeros,
+bits }` (namespace CB.Gen.SafeGcdLimbs.UnsatInt) and the free functions `fg`, `de`, `divsteps` (namespace CB.Gen.SafeGcdLimbs;
+`jump` / `iterations` are the ninth group's, unit option `use=['safegcd']`) of src/modular/safegcd.rs, 64-bit configuration.  Subset extensions (unit option `unsat`, so the earlier generated files do not change):
+  `UnsatInt<LIMBS>` (`Self` inside `impl UnsatInt`) is a NEWTYPE over `[u64; LIMBS]`: the list of its 62-bit words
+  (`List (BitVec 64)`, little endian, `LIMBS : Nat` explicit); `x.0` is that list, `x.0[i]` a `u64` (`x.getD i 0#64`: total, the
+  default is never taken inside `while i < LIMBS`), `x.0[i] = e` is `x.set i e`; methods on an `UnsatInt` value and
+  `UnsatInt::f(..)` resolve to the `unsat` unit (also from the free-function unit that follows it in the same file);
+  the associated constants are READ from the source on every run: `LIMB_BITS` (`pub const LIMB_BITS: usize = <n>;`, used as a
+  shift amount / index), `MASK` (`u64::MAX >> (<k> - Self::LIMB_BITS)`, emitted as `((~~~0#64) >>> <k - n>)`), `ZERO`
+  (`Self([0; LIMBS])`: `List.replicate LIMBS 0#64`), also through a turbofish (`UnsatInt::<LIMBS>::MASK`); a constant whose
+  defining text has another form makes every function that mentions it `kept_last`;
+  `let (a, mut b, c) = if cond { (x, y, z) } else { (x, 0, 0) };`: an `if` EXPRESSION whose branches are tuples — the untyped
+  literals of one branch take the component types of the other branch (the one without untyped literals is typed first);
+  a `let` that shadows a PARAMETER (`let (other, ..) = ..;` in `mul`) is a fresh Lean name, like every re-binding;
+  `-x as u64` on an `i64` (unary minus binds tighter than `as`; the pattern is kept), `x as u128` of an `i64` sign-extends;
+  a `while i < LIMBS - 1` bound (truncated `Nat` subtraction: for `LIMBS = 0` Rust's `usize` subtraction panics, the
+  translation runs zero rounds) — the fourth `while` form, unchanged.
+  `divsteps`: `while i < m` with `m` a `usize` WORD computed from data (`iterations(f_0.bits(), g.bits())`) — the fourth `while`
+  form with a word bound (compared as `Nat`s, fuel `m.toNat`); the untyped `let mut delta = 1;` is loop state, typed by the one
+  width that type-checks the body (64: an argument of `jump`); `&f.0` of an `UnsatInt` passes the word list to a `&[u64]`
+  parameter; `let mut matrix;` (declared at the top, assigned and used only inside the loop body, first by the destructuring
+  assignment `(delta, matrix) = jump(..);`) is a scratch variable of the body: that assignment is read as
+  `let (delta_new, matrix) = jump(..); delta = delta_new;` (`localize_declared`; same values, same order), so `matrix` is a
+  body-local `let` and not loop state; `debug_assert!(g.eq(..))` after the loop is skipped (it is hypothesis H_divsteps_done of
+  C10, reported by the model's `.g`).
+  Last unit of that file (namespace CB.Gen.SafeGcdLimbs.Inverter; unit option `inverter`): `SafeGcdInverter::norm` of
+  `impl<const SAT_LIMBS: usize, const UNSAT_LIMBS: usize> SafeGcdInverter<SAT_LIMBS, UNSAT_LIMBS>` — the unit's limb count is
+  `UNSAT_LIMBS` (`UnsatInt<UNSAT_LIMBS>` is the word list; calls into the `UnsatInt` unit pass it on as that unit's `LIMBS`);
+  `&self` is the TUPLE of the struct's fields in declaration order, read from `struct SafeGcdInverter<..> { modulus, adjuster,
+  inverse }` on every run (`self.modulus` is component 1; a field of another type than `UnsatInt<UNSAT_LIMBS>` / an integer makes
+  the unit's functions `kept_last`); assignment to a `mut` parameter (`value = ..`) re-binds it like any variable.
 """
 import os, re, sys, json
 
@@ -834,6 +866,8 @@ class P:
         arr = place[1]
         if arr[0] == 'nfield' and arr[2] == 'limbs':
             arr = arr[1]
+        if OPTS.get('unsat') and arr[0] == 'field' and arr[2] == 0 and arr[1][0] == 'var' and not word:
+            arr = arr[1]      # (G18) `x.0[i] = e` on an `UnsatInt` (a newtype over `[u64; LIMBS]`)
         if arr[0] != 'var':
             self.i = save
             return False
@@ -2029,6 +2063,17 @@ class Gen:
                     # a fixed array (tuple): `t[K] = e` re-binds `t` to the tuple with component K replaced
                     e = rhs if op == '=' else ('bin', op[:-1], ('index', ('var', name), idx), rhs)
                     self.set_component(name, idx, e, None, env, lines)
+                    continue
+                if name in env and env[name][1] == 'unsat':
+                    # (G18) `x.0[i] = e` / `x.0[i] op= e` on an `UnsatInt`: a new word list with position `i` replaced
+                    e = rhs if op == '=' else ('bin', op[:-1], ('index', ('field', ('var', name), 0), idx), rhs)
+                    ix, tix = self.ex(idx, env, 'nat')
+                    if tix != 'nat':
+                        raise Unsupported('index of type ' + str(tix))
+                    t, ty = self.ex(e, env, 64)
+                    if ty != 64:
+                        raise Unsupported('array element of type ' + str(ty))
+                    self.bind(name, f'{atom(env[name][0])}.set {atom(ix)} {atom(t)}', 'unsat', env, lines)
                     continue
                 if name not in env or env[name][1] != 'uint':
                     raise Unsupported('indexed assignment to ' + name)
@@ -3398,6 +3443,214 @@ def _loop_down_text4(self, i, rest, state, styp, captured, env):
 Gen.emit_loop_down, Gen.loop_down_text = _emit_loop_down4, _loop_down_text4
 
 
+# ---- round 4, G18: `UnsatInt<LIMBS>` (src/modular/safegcd.rs) — a newtype over `[u64; LIMBS]`, the list of its 62-bit words
+
+# `UnsatInt::LIMB_BITS` / `UnsatInt::MASK` as read from the source being translated (unit option `unsat`): name -> int / lean text
+UNSAT_CONSTS = {}
+
+_ty_of_g18, _lean_ty_g18 = ty_of, lean_ty
+# `struct SafeGcdInverter<..> { modulus: UnsatInt<UNSAT_LIMBS>, adjuster: UnsatInt<UNSAT_LIMBS>, inverse: i64 }` as read from the
+# source (unit option `inverter`): [(field, type)]
+INVERTER_FIELDS = []
+
+
+def read_inverter_fields(src):
+    INVERTER_FIELDS.clear()
+    m = re.search(r'\bstruct\s+SafeGcdInverter\s*<[^>]*>\s*\{([^}]*)\}', src)
+    if not m:
+        return
+    body = re.sub(r'#\[[^\]]*\]', '', re.sub(r'//[^\n]*', '', m.group(1)))
+    out = []
+    for f in [x.strip() for x in body.split(',') if x.strip()]:
+        f = re.sub(r'^pub(?:\([a-z]+\))?\s+', '', f)
+        n, t = [x.strip() for x in f.split(':', 1)]
+        try:
+            out.append((n, ty_of(t, None)))
+        except Unsupported:
+            return
+    INVERTER_FIELDS.extend(out)
+
+
+def ty_of(t, self_ty):
+    t0 = t.strip()
+    if OPTS.get('unsat') and (re.match(r'UnsatInt\s*<\s*(LIMBS|UNSAT_LIMBS)\s*>$', t0) or (t0 == 'Self' and self_ty == 'UnsatInt')):
+        return 'unsat'       # an `UnsatInt<LIMBS>`: the list of its 62-bit words (each a `u64`), little endian
+    if OPTS.get('unsat') and t0 == 'Self' and self_ty == 'SafeGcdInverter' and INVERTER_FIELDS:
+        return tuple(t for _, t in INVERTER_FIELDS)      # `&self` of the inverter: the tuple of its fields, in declaration order
+    return _ty_of_g18(t, self_ty)
+
+
+def lean_ty(t):
+    if t == 'unsat':
+        return 'List (BitVec 64)'
+    if isinstance(t, tuple):
+        return ' × '.join((f'({lean_ty(x)})' if isinstance(x, tuple) else lean_ty(x)) for x in t)
+    return _lean_ty_g18(t)
+
+
+def read_unsat_consts(src):
+    """`pub const LIMB_BITS: usize = 62;` and `pub const MASK: u64 = u64::MAX >> (64 - Self::LIMB_BITS);` of `impl UnsatInt`"""
+    UNSAT_CONSTS.clear()
+    m = re.search(r'\bconst\s+LIMB_BITS\s*:\s*usize\s*=\s*(\d+)\s*;', src)
+    if m and 0 < int(m.group(1)) < 64:
+        UNSAT_CONSTS['LIMB_BITS'] = int(m.group(1))
+        m2 = re.search(r'\bconst\s+MASK\s*:\s*u64\s*=\s*u64::MAX\s*>>\s*\(\s*(\d+)\s*-\s*Self::LIMB_BITS\s*\)\s*;', src)
+        if m2 and 0 <= int(m2.group(1)) - int(m.group(1)) < 64:
+            UNSAT_CONSTS['MASK'] = f'((~~~0#64) >>> {int(m2.group(1)) - int(m.group(1))})'
+    if re.search(r'\bconst\s+ZERO\s*:\s*Self\s*=\s*Self\(\s*\[\s*0\s*;\s*LIMBS\s*\]\s*\)\s*;', src):
+        UNSAT_CONSTS['ZERO'] = True
+
+
+_ex_g18, _lookup_g18, _const_g18 = Gen.ex, Gen.lookup, Gen.const
+
+
+def _unsat_path(p):
+    return len(p) == 2 and p[0] in ('Self', 'UnsatInt') and p[1] in ('LIMB_BITS', 'MASK', 'ZERO')
+
+
+def _g18_const(self, e):
+    if OPTS.get('unsat') and e[0] == 'path' and _unsat_path(e[1]) and e[1][1] == 'LIMB_BITS' and (e[1][0] != 'Self' or self.self_ty == 'UnsatInt'):
+        return UNSAT_CONSTS.get('LIMB_BITS')
+    return _const_g18(self, e)
+
+
+def _g18_ex(self, e, env, want=None):
+    if not OPTS.get('unsat'):
+        return _ex_g18(self, e, env, want)
+    k = e[0]
+    if k == 'path' and _unsat_path(e[1]) and (e[1][0] != 'Self' or self.self_ty == 'UnsatInt'):
+        if len(e) > 2 and e[2] and e[2] != [self.generic]:
+            raise Unsupported('turbofish ' + '::'.join(e[1]))
+        c = e[1][1]
+        if c not in UNSAT_CONSTS:
+            raise Unsupported(f'constant UnsatInt::{c} changed in the source')
+        if c == 'MASK':
+            return UNSAT_CONSTS['MASK'], 64
+        if c == 'LIMB_BITS':
+            return (str(UNSAT_CONSTS[c]), 'nat') if want == 'nat' else (f'{UNSAT_CONSTS[c]}#{want if isinstance(want, int) else 64}', want if isinstance(want, int) else 64)
+        if not self.generic or env.get(self.generic, (None, None))[1] != 'nat':
+            raise Unsupported('UnsatInt::ZERO outside a generic unit')
+        return f'(List.replicate {env[self.generic][0]} 0#64)', 'unsat'
+    if k == 'field' and e[2] == 0:
+        t, ty = self.ex(e[1], env)
+        if ty == 'unsat':
+            return t, 'words'          # `x.0`: the `[u64; LIMBS]` inside, the same list (`x.0[i]` is a `u64`)
+    if k == 'nfield' and e[1] == ('var', 'self') and self.self_ty == 'SafeGcdInverter' and 'self' in env:
+        names = [n for n, _ in INVERTER_FIELDS]
+        if e[2] not in names:
+            raise Unsupported('field ' + e[2] + ' of the inverter')
+        return f'{env["self"][0]}{proj(names.index(e[2]), len(names))}', INVERTER_FIELDS[names.index(e[2])][1]
+    if k == 'method':
+        r, tr = self.ex(e[2], env)
+        if tr == 'unsat':
+            return self.call(e[1], [e[2]] + e[3], env, 'unsat')
+    if k == 'call' and len(e[1]) == 2 and e[1][0] == 'UnsatInt':
+        return self.call(e[1][1], e[2], env, 'unsat')
+    if k == 'ifexpr' and want is None:
+        # `let (a, b, c) = if c { (x, y, z) } else { (x, 0, 0) };`: the untyped literals of one branch take the types of the other
+        try:
+            return _ex_g18(self, e, env, want)
+        except Unsupported as ex:
+            if 'untyped literal' not in str(ex):
+                raise
+        for stmts, fin in e[2:]:
+            if stmts:
+                continue
+            try:
+                _, ty = self.ex(fin, dict(env))
+            except Unsupported:
+                continue
+            return _ex_g18(self, e, env, ty)
+        raise Unsupported('untyped literal')
+    return _ex_g18(self, e, env, want)
+
+
+def _g18_lookup(self, name, where):
+    if where == 'unsat':
+        if self.self_ty == 'UnsatInt':
+            return (self.ns, self.sigs[name]) if name in self.sigs else (None, None)
+        c = self.ext.get('unsat')
+        return (c[0], c[1].get(name)) if c else (None, None)
+    return _lookup_g18(self, name, where)
+
+
+_call_g18 = Gen.call
+
+
+def _g18_call(self, name, args, env, where='self'):
+    ns, sig = self.lookup(name, where)
+    if (OPTS.get('unsat') and sig is not None and ns in GENERIC_NS and self.generic and GENERIC_NS[ns] != self.generic
+            and ns != self.ns):
+        # the caller names its limb count differently (`UNSAT_LIMBS` in `impl SafeGcdInverter`): the same `Nat` argument
+        old = GENERIC_NS[ns]
+        GENERIC_NS[ns] = self.generic
+        try:
+            return _call_g18(self, name, args, env, where)
+        finally:
+            GENERIC_NS[ns] = old
+    return _call_g18(self, name, args, env, where)
+
+
+Gen.ex, Gen.lookup, Gen.const, Gen.call = _g18_ex, _g18_lookup, _g18_const, _g18_call
+
+
+def _occurs(x, name):
+    """does the variable `name` occur anywhere in the AST `x` (as a `('var', name)` node or as the target of a statement)"""
+    if isinstance(x, (list, tuple)):
+        return any(_occurs(y, name) for y in x)
+    return x == name
+
+
+def localize_declared(stmts):
+    """(G18, `unsat` units) `let mut m;` at the top level of a function whose every use lies inside ONE `while` body, where its
+    first occurrence is as a target of a destructuring assignment `(a, m) = e;` and nothing assigns it again: a scratch variable
+    of that body.  The assignment is read as `let (a_new, m) = e; a = a_new;` (the same values in the same order) and the
+    declaration is dropped, so `m` is a local of the body, not loop state."""
+    stmts = list(stmts)
+    for st in [x for x in stmts if x[0] == 'declare']:
+        name = st[1]
+        users = [x for x in stmts if x is not st and _occurs(x, name)]
+        if len(users) != 1 or users[0][0] != 'while' or _occurs(users[0][1], name):
+            continue
+        w = users[0]
+        body = list(w[2])
+        j = [k for k, x in enumerate(body) if _occurs(x, name)][0]
+        x = body[j]
+        if x[0] != 'assign_tuple' or _occurs(x[2], name) or any(lv[0] != 'var' for lv in x[1]):
+            continue
+        if [lv[1] for lv in x[1]].count(name) != 1 or any(name in assigned_vars([y]) for y in body[j + 1:]):
+            continue
+        names, after = [], []
+        for lv in x[1]:
+            if lv[1] in (name, '_'):
+                names.append(lv[1])
+                continue
+            tmp = lv[1] + '_new'
+            if _occurs(stmts, tmp):
+                names = None
+                break
+            names.append(tmp)
+            after.append(('assign', lv[1], '=', ('var', tmp)))
+        if names is None:
+            continue
+        body[j:j + 1] = [('lettuple', names, x[2])] + after
+        neww = (w[0], w[1], body) + tuple(w[3:])
+        stmts = [neww if y is w else y for y in stmts if y is not st]
+    return stmts
+
+
+_run_g18 = Gen.run
+
+
+def _g18_run(self, stmts, env, lines, declared=None):
+    if OPTS.get('unsat') and declared is None and any(x[0] == 'declare' for x in stmts):
+        stmts = localize_declared(stmts)
+    return _run_g18(self, stmts, env, lines, declared)
+
+
+Gen.run = _g18_run
+
+
 def impl_blocks(src, self_ty):
     """the bodies of all inherent impl blocks `impl[<..>] Ty[<..>] {` of a file, concatenated"""
     out = []
@@ -3672,6 +3925,20 @@ FILES = [
              use=['div_limb_loops', 'reciprocal', 'prim'],
              desc='mul_rem: the double-width product reduced by rem_limb_with_reciprocal at limb count 2', want=['mul_rem']),
     ]),
+    # (G18) the LIMB arithmetic of safegcd: `impl UnsatInt<LIMBS>` (lists of 62-bit words) and `fg`, `de` composed of it
+    ('SafeGcdLimbs.lean', ['CB.Gen.SafeGcd', None, 'set_option linter.unusedVariables false'], [
+        dict(key='unsat', rel=['src/modular/safegcd.rs'], ns='CB.Gen.SafeGcdLimbs.UnsatInt', self_ty='UnsatInt', generic='LIMBS',
+             unsat=True, desc='impl<const LIMBS: usize> UnsatInt<LIMBS>: add, mul(i64), neg, shr, eq, is_negative, lowest, select',
+             want=['add', 'mul', 'neg', 'shr', 'eq', 'is_negative', 'lowest', 'select', 'leading_zeros', 'bits']),
+        dict(key='safegcd_limbs', rel='src/modular/safegcd.rs', ns='CB.Gen.SafeGcdLimbs', self_ty=None, generic='LIMBS',
+             unsat=True, free_generic=True, skip_mods=['verif'], defer_lets=True,
+             desc='fg, de: the matrix applied to (f, g) and to (d, e) modulo the modulus; divsteps: the outer loop', want=['fg', 'de', 'divsteps'],
+             use=['safegcd']),
+        dict(key='inverter', rel=['src/modular/safegcd.rs'], ns='CB.Gen.SafeGcdLimbs.Inverter', self_ty='SafeGcdInverter',
+             generic='UNSAT_LIMBS', unsat=True, inverter=True, private=True,
+             desc='impl SafeGcdInverter<SAT_LIMBS, UNSAT_LIMBS>: norm (`&self` is the tuple of the fields modulus, adjuster, inverse)',
+             want=['norm']),
+    ]),
 ]
 
 AUX = re.compile(r'\w+_loop\d+$')
@@ -3773,6 +4040,18 @@ def main():
                     ext[opt] = u[opt]
             OPTS.update({k: u[k] for k in ('usize_nat',) if u.get(k)})
             OPTS.update({k: u[k] for k in ('usize_param_nat',) if u.get(k)})
+            OPTS.update({k: u[k] for k in ('unsat',) if u.get(k)})      # (G18) `UnsatInt<LIMBS>` values
+            ext['unsat'] = reg.get('unsat')
+            if u.get('inverter'):
+                try:
+                    read_inverter_fields(open(path[0] if isinstance(path, list) else path).read())
+                except OSError:
+                    INVERTER_FIELDS.clear()
+            if u.get('unsat'):
+                try:
+                    read_unsat_consts(impl_blocks(open(path[0] if isinstance(path, list) else path).read(), 'UnsatInt'))
+                except (Unsupported, OSError):
+                    UNSAT_CONSTS.clear()
             try:
                 order, out, failed, sigs = translate_file(path, ns, self_ty, u.get('want'), u.get('private', False), ext, u.get('cut'))
             except (Unsupported, OSError) as ex:
